@@ -398,6 +398,11 @@ def dnsOk (v : Bytes) : Bool :=
 
 def alias2Ok (v : Bytes) : Bool := v.length ≥ 1 && v.length ≤ 32 && utf8Ok v
 
+/-- does /repo HEAD still have the defects of the node_announcement_2 address-list record decoders
+    (finding F-lnwire-addr-list-record-decoders)?  Flip to `false` once they are fixed: the model
+    then keeps the lists verbatim and rejects values cut short by the end of the message. -/
+def addrListDefectAtHead : Bool := false
+
 /-- HEAD behaviour of `ipv4AddrsDecoder` / `ipv6AddrsDecoder` (finding
     F-lnwire-addr-list-decoders): every decoded `net.TCPAddr.IP` aliases ONE shared buffer, so all
     addresses of the list end up with the IP of the last one (ports are kept). -/
@@ -488,7 +493,9 @@ def schemaXOf (dropUnknown : Bool) (t : Nat) (body : Bytes) : Option SchemaX :=
   | 269 => some { fields := [], tail := .tlvAll, keepUnknown := some inSignedRange,
                   known := [(0, .varBytes), (1, .fixed 3), (2, .fixed 4), (3, .varBytes), (4, .fixed 33),
                     (5, .varBytes), (7, .varBytes), (9, .varBytes), (11, .varBytes), (160, .fixed 64)],
-                  norm := [(0, featNorm), (5, aliasIpNorm 6), (7, aliasIpNorm 18)], quirk := [5, 7],
+                  norm := if addrListDefectAtHead then [(0, featNorm), (5, aliasIpNorm 6), (7, aliasIpNorm 18)]
+                          else [(0, featNorm)],
+                  quirk := [5, 7],
                   recOk := [(3, alias2Ok), (5, fun v => v.length % 6 == 0), (7, fun v => v.length % 18 == 0),
                     (9, fun v => v.length % 37 == 0), (11, dnsOk)],
                   always := [(0, []), (2, zeros 4), (4, zeros 33), (160, zeros 64)] } -- node_announcement_2
@@ -515,7 +522,7 @@ def modelMessage (b : Bytes) : Option Outcome :=
   let t := beNat (b.take 2)
   let body := b.drop 2
   if (t == 261 && scidsUnmodelled body 32) || (t == 264 && scidsUnmodelled body 41) ||
-      (t == 269 && shortReadUnmodelled (body.length + 1) body) then none else
+      (t == 269 && addrListDefectAtHead && shortReadUnmodelled (body.length + 1) body) then none else
   match schemaXOf dropUnknownAtHead t body with
   | none => none
   | some sx =>
